@@ -57,7 +57,14 @@ func New() (string, string) {
 }
 
 // Parse parses a valid license of any version.
-func Parse(data string) (License, error) {
+func Parse(data string) (license License, err error) {
+	// The binary decoder may panic on malformed input (e.g. a negative length)
+	defer func() {
+		if r := recover(); r != nil {
+			license, err = nil, fmt.Errorf("license: malformed license (%v)", r)
+		}
+	}()
+
 	if len(data) < 5 {
 		return nil, fmt.Errorf("No license was found, please provide a valid license key through the configuration file, an EMITTER_LICENSE environment variable or a valid vault key 'secrets/emitter/license'")
 	}
